@@ -150,7 +150,7 @@ def build_case(name, m, form, opts, out=None, pres=None):
     case = coqgen.Case(name, out=out, spec=spec, hyps=hyps, named=named, ctx=ctx, comps=[()], tactic=tac,
                        refvalue_terminal=True,
                        note={"integral_type": itype, "options": [k for k, v in opts.items() if v]})
-    case.pre, case.scale, case.form = pre, scale, form
+    case.pre, case.scale, case.form, case.pres = pre, scale, form, list(pres)
     return case
 
 
@@ -182,29 +182,30 @@ def multi_cases(run, cell, g):
         pre_integrals = preprocess_form(form, False).integrals()
         for idata in fd.integral_data:
             sid = idata.subdomain_id
+            sids = sid if isinstance(sid, tuple) else (sid,)
             for n_, itg in enumerate(idata.integrals):
-                applies = []
-                for pi in pre_integrals:
-                    ids = pi.subdomain_id()
-                    ids = ids if isinstance(ids, tuple) else (ids,)
-                    for one in ids:
-                        # Form normalises ids to tuples; 'everywhere' applies to every declared id and to 'otherwise'
-                        if one == "everywhere" or (sid != ("otherwise",) and sid != "otherwise" and
-                                                  (one == sid or (isinstance(sid, tuple) and one in sid))):
-                            applies.append(pi.integrand())
-                if not applies:
-                    skipped.append((fname, str(sid), "no input integral applies"))
-                    continue
-                sidt = "".join(ch if ch.isalnum() else "_" for ch in str(sid))
-                name = f"e2em_{cell[:3]}{g}_{fname}_{tag}_s{sidt}_{n_}"
-                c = build_case(name, m, form, o, out=itg.integrand(), pres=applies)
-                if isinstance(c, str):
-                    skipped.append((name, c))
-                    continue
-                c.note["subdomain_id"] = str(sid)
-                c.note["inputs_applying"] = len(applies)
-                cases.append(c)
-                run.count_case(name)
+                # an output integral listed under several ids must equal the sum of applying inputs for EACH id
+                for one_sid in sids:
+                    applies = []
+                    for pi in pre_integrals:
+                        ids = pi.subdomain_id()
+                        ids = ids if isinstance(ids, tuple) else (ids,)
+                        for one in ids:      # an id repeated in a tuple counts with multiplicity
+                            if one == "everywhere" or (one_sid != "otherwise" and one == one_sid):
+                                applies.append(pi.integrand())
+                    if not applies:
+                        skipped.append((fname, str(sid), "no input integral applies"))
+                        continue
+                    sidt = "".join(ch if ch.isalnum() else "_" for ch in str(one_sid))
+                    name = f"e2em_{cell[:3]}{g}_{fname}_{tag}_s{sidt}_{n_}"
+                    c = build_case(name, m, form, o, out=itg.integrand(), pres=applies)
+                    if isinstance(c, str):
+                        skipped.append((name, c))
+                        continue
+                    c.note["subdomain_id"] = str(one_sid)
+                    c.note["inputs_applying"] = len(applies)
+                    cases.append(c)
+                    run.count_case(name)
     return cases, skipped
 
 
@@ -278,7 +279,8 @@ def run_end_to_end(run):
                     run.violation({"broken": "generated end-to-end obligations do not compile", "message": msg}, False)
                 continue
             seen.add(case.name)
-            w = numeric_check(case.form, {k: (k in case.note["options"]) for k in OPTS}, trials=6, seed=run.seed)
+            w = numeric_check(case.form, {k: (k in case.note["options"]) for k in OPTS}, trials=6, seed=run.seed,
+                              out=case.out, pres=case.pres)
             rep = {"broken_obligation": lemma, "case": case.name, "note": case.note, "coq_message": msg,
                    "form": str(case.form)[:500], "preprocessed_integrand": str(case.out)[:1500],
                    "reproduce": "bin/check C01"}
@@ -297,7 +299,8 @@ class FrameEnv(pyden.Env):
     Physical terminals are evaluated as jets in x; reference derivatives are K^T-transformed."""
 
     def __init__(self, m, seed):
-        g = m.geometric_dimension()
+        g = m.geometric_dimension
+        g = g() if callable(g) else g
         super().__init__(nv=g, order=2, seed=seed)
         self.g = g
         rng = self.rng
@@ -329,26 +332,37 @@ class FrameEnv(pyden.Env):
         return tot
 
 
-def numeric_check(form, opts, trials=6, seed=0):
-    """identity-pullback, cell-integral forms only: compare values numerically; returns a witness or None"""
+def numeric_check(form, opts, trials=6, seed=0, out=None, pres=None):
+    """identity-pullback, cell-integral forms only: compare values numerically; returns a witness or None.
+    `out` / `pres`: one output integrand and the preprocessed input integrands whose sum it must equal"""
     try:
         m = form.ufl_domains()[0]
-        if m.topological_dimension != m.geometric_dimension():
+        gd = m.geometric_dimension
+        gd = gd() if callable(gd) else gd
+        td = m.topological_dimension
+        td = td() if callable(td) else td
+        if td != gd:
             return None
-        fd = compute_form_data(form, **opts)
-        out = fd.integral_data[0].integrals[0].integrand()
-        pre = preprocess_form(form, False).integrals()[0].integrand()
+        if out is None:
+            fd = compute_form_data(form, **opts)
+            out = fd.integral_data[0].integrals[0].integrand()
+        if pres is None:
+            pres = [preprocess_form(form, False).integrals()[0].integrand()]
         if form.integrals()[0].integral_type() != "cell":
             return None
         rng = random.Random(seed)
         for t in range(trials):
             env = FrameEnv(m, rng.randrange(10**9))
             a = pyden.evaluate(out, env)
-            b = pyden.evaluate(pre, env)
+            b = None
+            for p_ in pres:
+                v_ = pyden.evaluate(p_, env)
+                b = v_ if b is None else b + v_
             if opts.get("do_apply_integral_scaling"):
                 b = b * abs(env.detJ) * pyden.Fraction(1, 3)
             if not a.close_to(pyden.Jet.const(a.nv, a.order, b.value())) and a.value() != b.value():
                 return {"options": [k for k, v in opts.items() if v], "form": str(form)[:300],
+                        "output_integrand": str(out)[:300], "inputs_applying_there": [str(p_)[:120] for p_ in pres],
                         "J": [[str(x) for x in r] for r in env.J],
                         "preprocessed_value": str(a.value()), "expected_scale_times_original": str(b.value())}
     except Exception:  # noqa: BLE001
